@@ -10,4 +10,14 @@ for d in ${@:-$(ls seeded | grep -v REGRESSION)}; do
   if echo "$res" | grep -q "rc=1"; then verdict=detected; else verdict=MISSED; fi
   echo "$d | $ids | $verdict | $(echo "$res" | tr '\n' ';' | cut -c1-300)" | tee -a $tmp
 done
+# keep the rows of changes that were not re-run
+if [ $# -gt 0 ] && [ -f $out ]; then
+  python3 - $tmp $out <<'PY'
+import sys
+new = open(sys.argv[1], errors="replace").read().splitlines(); old = open(sys.argv[2], errors="replace").read().splitlines()
+rows = {l.split(" | ")[0]: l for l in old if " | " in l and not l.startswith("#")}
+rows.update({l.split(" | ")[0]: l for l in new if " | " in l and not l.startswith("#")})
+open(sys.argv[1], "w").write(new[0] + "\n" + "\n".join(rows[k] for k in sorted(rows)) + "\n")
+PY
+fi
 mv $tmp $out
